@@ -20,7 +20,7 @@
 (***************************************************************************)
 EXTENDS Naturals, Sequences, TLC, Json, SequencesExt
 
-CONSTANTS Stmts, MaxBreaks, MaxExtras, ContChars
+CONSTANTS Stmts, MaxBreaks, MaxExtras, ContChars, AmpEnd      \* AmpEnd: a line may end in & (the reader is TOLD the form then)
 
 VARIABLES si, pos,     \* statement, next character of its text
           cur, lines, nb, nx, first, spans, cmts, done
@@ -68,7 +68,7 @@ QS(i) == IF i = 0 THEN "" ELSE LET q == QS(i - 1) c == Txt[i] IN
 \* wrap here: the rest of the statement goes to a continuation line; outside a character literal the line that is
 \* left may carry a trailing comment (with an odd quote in it)
 Break == /\ ~done /\ pos > 1 /\ pos <= Len(Txt) /\ nb < MaxBreaks
-         /\ Txt[pos - 1] # "&"                       \* class restriction: a line ending in & is taken for free form by the detector
+         /\ (AmpEnd \/ Txt[pos - 1] # "&")           \* class restriction: a line ending in & is taken for free form by the detector
          /\ Len(cur) > 6
          /\ \E c \in ContChars, b \in CmtLines, tc \in { <<>>, <<"!", "i", "t", "'", "s">> } :
               /\ (tc # <<>> => QS(pos - 1) = "")
